@@ -10,6 +10,8 @@ import (
 	"fmt"
 	"os"
 	"strings"
+	"sync/atomic"
+	"time"
 )
 
 type Rand struct{ s uint64 }
@@ -85,6 +87,30 @@ func Main(e Engine) {
 		fs.Parse(os.Args[2:])
 		e.Gen(NewRand(*seed), *n, *tier, *prop, out)
 	case "run":
+		// real-time watchdog: no engine may hang the whole run; an op that does not finish within 120 s is
+		// reported in place of its output and the process ends (the remaining cases count as missing)
+		var opSeq atomic.Int64
+		var curOp atomic.Value
+		curOp.Store("")
+		go func() {
+			last, stale := int64(-1), 0
+			for {
+				time.Sleep(time.Second)
+				if n := opSeq.Load(); n != last {
+					last, stale = n, 0
+					continue
+				}
+				if curOp.Load().(string) == "" {
+					continue
+				}
+				stale++
+				if stale >= 120 {
+					out.P("X stuck for 120s in op: %s", curOp.Load().(string))
+					out.Flush()
+					os.Exit(0)
+				}
+			}
+		}()
 		sc := bufio.NewScanner(os.Stdin)
 		sc.Buffer(make([]byte, 1<<20), 1<<26)
 		for sc.Scan() {
@@ -102,7 +128,11 @@ func Main(e Engine) {
 				e.Case(id)
 				continue
 			}
+			curOp.Store(line)
+			opSeq.Add(1)
 			runOp(e, f, line, out)
+			curOp.Store("")
+			opSeq.Add(1)
 		}
 	default:
 		fmt.Fprintln(os.Stderr, "usage: gen|run")
